@@ -24,12 +24,14 @@ type engine struct{}
 func init() { harness.Register(engine{}) }
 
 func (engine) Name() string    { return "storesim" }
-func (engine) Props() []string { return []string{"C01", "C12", "C13"} }
+func (engine) Props() []string { return []string{"C01", "C03", "C12", "C13"} }
 
 func (e engine) Gen(prop, tier string, run int, r *simcore.Rand) *harness.Plan {
 	switch prop {
 	case "C01":
 		return genC01(tier, run, r)
+	case "C03":
+		return genC03(tier, run, r)
 	case "C12":
 		return genC12(tier, run, r)
 	case "C13":
@@ -139,6 +141,8 @@ func (e engine) Exec(rc *harness.RunCtx, p *harness.Plan) *harness.Outcome {
 		return execExact(rc, p, &cfg, ops)
 	case "enumerate", "single":
 		return execC13(rc, p, &cfg, ops)
+	case "crash":
+		return execC03(rc, p, &cfg, ops)
 	case "amplify":
 		return execC13Amplify(rc, p, &cfg, ops)
 	}
@@ -165,6 +169,12 @@ type session struct {
 	pool  []*sim.TBlob
 	sto   blobserver.Storage
 	model *sim.Model
+	// deadDirs: directories of crashed generations; disk calls on them block
+	deadDirs   []string
+	sawCrash   bool
+	streamErrs int
+	inflight   map[string]bool // refs targeted by the operation in flight at the crash
+	reacked    map[string]bool // ... whose receive was acknowledged after the crash
 }
 
 func newSession(rc *harness.RunCtx, cfg *Config) (*session, error) {
@@ -181,6 +191,11 @@ func newSessionEnv(rc *harness.RunCtx, cfg *Config, env *sim.Env, scratch string
 	s.world = sim.NewWorld(env, scratch)
 	simdisk.Reset()
 	simdisk.SetHook(func(path, op string) string {
+		for _, d := range s.deadDirs {
+			if strings.HasPrefix(path, d+"/") {
+				select {} // a zombie of a crashed generation
+			}
+		}
 		mut := op == "Write" || op == "WriteAt" || op == "Sync" || op == "Truncate" || op == "Punch" || op == "OpenFile"
 		kind, _ := env.Enter(nil, "disk", op, mut)
 		switch kind {
